@@ -154,6 +154,25 @@ check('C14',
       'Trusted: vf/sim.py wrappers (detached before pickling); dill snapshots as produced by ANDES.',
       'DESIGN.md 7 C14')
 
+check('C15',
+      'property-based testing (Hypothesis): generated output configurations (Output selections incl. invalid names, '
+      'save_every, limit_store/max_store, resumed runs) with files enabled; two independent recorders (attempt log and '
+      'dae.store wrapper); oracle: memory series, npz (plain numpy), lst (own parser), TDSData file mode, csv export, csv '
+      'replay, get_data and find must contain exactly the recorded rows in columns labelled with the owner of the address',
+      'Differential testing of every output channel against an independent in-process recording of the accepted steps.',
+      'Trusted: vf/sim.py recorder; numpy npz/csv readers; the slot-owner naming oracle (checked against the models in C10).',
+      'DESIGN.md 7 C15')
+
+check('C09',
+      'property-based testing (Hypothesis): memory-less discrete components on generated (input, limits, signs, equal, '
+      'one-sided) tuples incl. boundaries and coinciding limits vs reference comparisons; stateful machine for the '
+      'history components (Delay, Average, Derivative, Sampling) with the integrator\'s three actions (advance, '
+      're-evaluate, rewind) vs a reference computed from the accepted input history; simulation runs with tightened '
+      'limits checking bounds, pegging (x at limit, f = 0) and one-hot flags at every stored step',
+      'Reference-model and invariant checking at component level, invariant checking over stored simulation steps.',
+      'Trusted: the reference semantics typed from the class docstrings in vf/props/c09.py; vf/sim.py recorder.',
+      'DESIGN.md 7 C09')
+
 NOT_BUILT = 'check not built yet in this round (machinery in progress; see DESIGN.md section 10 build order)'
 ALL = ['C%02d' % i for i in range(1, 21)]
 
